@@ -147,6 +147,102 @@ def system_search(run, rnd, dates, n_pops):
     run.extra["rules_compared_row_by_row"] = len(seen)
 
 
+# ---------------------------------------------------------------------------------
+# static: verified result-kind analysis (Core/TypeInfer.lean, Props/C03Types.lean)
+# ---------------------------------------------------------------------------------
+
+# Rules the analysis cannot certify on the unchanged tree, with the reason.  They index a parameter table by a value
+# computed from the data (`params["…"][geburtsjahr]`-style); the analysis then has to assume that ANY component of that
+# table (a string, a sub-table) can come out.  They rest on the row-by-row search below.
+KINDS_IMPRECISE = {
+    "_ges_rente_arbeitsl_altersgrenze_ohne_vertrauensschutzprüfung": "data-dependent subscript into a parameter table",
+    "_ges_rente_arbeitsl_altersgrenze_mit_vertrauensschutzprüfung": "data-dependent subscript into a parameter table",
+    "_unterhaltsvors_anspruch_kind_m_anwendungsvors": "data-dependent subscript into a parameter table",
+}
+
+ACCEPT = {"float": {"int", "flt", "bool", "inf"}, "int": {"int", "bool"}, "bool": {"bool"}}
+
+
+def _py_kind(v):
+    from fractions import Fraction
+    if isinstance(v, (bool, np.bool_)):
+        return "bool"
+    if isinstance(v, (int, np.integer)):
+        return "int"
+    if isinstance(v, (Fraction, np.floating)):
+        return "flt"
+    if isinstance(v, float):
+        return "inf" if v in (float("inf"), float("-inf")) else "flt"
+    if v is None:
+        return "none"
+    if isinstance(v, str):
+        return "str"
+    return "tree"
+
+
+def static_kinds(run, rnd, dates, rows_per_rule):
+    """One obligation per (rule, date): the cast of every possible result to the declared dtype is lossless
+    (`declared_cast_lossless`, `declared_column_lossless`).  A rule that is not certified and is not one of the documented
+    imprecise ones breaks the obligation; the rule's own source is then executed on exact rationals at branch-covering
+    inputs to find a row whose result kind the declared type does not hold."""
+    import kinds
+    import paramsio
+    import t1
+    import datetime
+    summary = {}
+    for date in dates:
+        try:
+            res, outside = kinds.result_kinds(date)
+        except Exception as ex:  # noqa: BLE001
+            run.broke("build", f"result-kind analysis at {date}", str(ex)[:500])
+            continue
+        cert = 0
+        notcert = []
+        for e, decl, j in res:
+            name = e["fname"]
+            run.case({"kinds": name, "date": date, "res": j.get("kinds")})
+            if "bad" in j or decl not in ACCEPT:
+                run.extra.setdefault("kinds_not_analysed", {})[name] = str(j.get("bad", f"declared {decl}"))[:200]
+                continue
+            if j.get("lossless") is True:
+                cert += 1
+                run.oblige(f"result kinds of {name} fit its declared type ({date})", True)
+                continue
+            notcert.append(name)
+            if name in KINDS_IMPRECISE:
+                continue
+            run.oblige(f"result kinds of {name} fit its declared type ({date})", False,
+                       f"declared -> {decl}, possible result kinds {j.get('kinds')}")
+            run.broke("obligation", f"result kinds of {name} at {date}: declared -> {decl}, the verified analysis finds possible "
+                      f"result kinds {j.get('kinds')} (falls off the end: {j.get('falls_off')})", json.dumps(j))
+            # failing-input search: the repo's source of the rule on exact rationals
+            o = datetime.date.fromisoformat(date).toordinal()
+            params_py = t1.py_params(paramsio.model_envs([o])[0][1])
+            f, _, _ = t1.exact_function(e)
+            free, rows = t1.sample_rows(rnd, e, params_py, rows_per_rule)
+            for row in rows:
+                kw = dict(zip(free, row))
+                for a in e["args"]:
+                    if a.endswith("_params"):
+                        kw[a] = params_py[a[:-7]]
+                try:
+                    v = f(**kw)
+                except Exception:  # noqa: BLE001
+                    continue
+                k = _py_kind(v)
+                lossy = k not in ACCEPT[decl] or (decl == "int" and k == "flt")
+                if lossy:
+                    run.hit({"node": name, "kind": "result-kind-not-declared"},
+                            f"{name} (declared -> {decl}) returns {v!r} (a {k}) for {{{', '.join(f'{a}={x}' for a, x in zip(free, row))}}} "
+                            f"at {date}: the cast to the declared dtype changes or rejects the value",
+                            {"date": date, "node": name, "args": {a: str(x) for a, x in zip(free, row)}, "result": repr(v)})
+                    break
+        summary[date] = {"rules_analysed": len(res), "certified_lossless": cert, "not_certified": sorted(notcert),
+                         "outside_the_modelled_fragment": len(outside)}
+    run.extra["static_result_kinds"] = summary
+    run.extra["static_result_kinds_documented_imprecise"] = KINDS_IMPRECISE
+
+
 def run(tier: str) -> int:
     r = common.Run("C03", tier)
     quick = tier == "quick"
@@ -154,9 +250,10 @@ def run(tier: str) -> int:
               "input) with and without declared type vs the Lean model (dtype and values exactly); search: every scalar rule of "
               "the default graph at the sampled dates, production column (rounding off) vs the rule called row by row on its "
               "parents' columns — exact equality and dtype = declared type. distinct = distinct result sequences / (rule, date, population).")
-    common.build_and_audit(r, ["C03"], leanchecker=not quick)
+    common.build_and_audit(r, ["C03", "C03Types"], leanchecker=not quick)
     rnd = common.rng("C03")
     wrapper_correspondence(r, rnd, 300 if quick else 5000)
+    static_kinds(r, rnd, popgen.DATES_QUICK + ["2015-01-01"] if quick else popgen.DATES_2015 + ["2005-01-01", "2010-01-01"], 40 if quick else 200)
     system_search(r, rnd, popgen.DATES_QUICK if quick else popgen.DATES_2015, 2 if quick else 10)
     r.sample({"rows": [0, 0.75, 1.25], "declared": "float", "column": [0.0, 0.75, 1.25], "dtype": "float64"})
     return r.finish()
